@@ -823,6 +823,19 @@ def r_links(idx, rep):
     m = idx.func(MOD + "::_merge_aabb")
     mk = MOD + "::_merge_aabb"
     mp = m.params()
+    # SEMANTIC reading first: the function body is evaluated (this module's evaluator) on the grid of integer box pairs that realises every order type of the
+    # bounds of an axis, on every path (fast paths `if one encloses the other: return that.copy()` included): the result must be the per-axis (min, max)
+    sem = _merge_semantic(m, mp)
+    if sem is not None:
+        for k in range(3):
+            for c in range(2):
+                wit = sem.get((k, c))
+                rep.check(wit is None, rule2, mk + "|row%d col%d" % (k, c), m.where,
+                          "for the boxes %s and %s _merge_aabb returns %s; the merged box must be %s (entry [%d,%d] = %s of the two %s bounds): a branch box that does not "
+                          "contain both children hides their leaves from every query" % ((wit or [0] * 4)[0], (wit or [0] * 4)[1], (wit or [0] * 4)[2], (wit or [0] * 4)[3], k, c,
+                                                                                          "min" if c == 0 else "max", "lower" if c == 0 else "upper"),
+                          "per-axis %s on all grid pairs, every path" % ("min" if c == 0 else "max"))
+        sem = True
     # the 3x2 matrix of entry expressions, however it is written: a literal `np.array([[..], [..], [..]])` or element stores `T[i, j] = e` into
     # a fresh array that is returned (loops over range(3) unrolled)
     from ..core.inline import normalise_statements as _norm
@@ -849,7 +862,9 @@ def r_links(idx, rep):
             if r_ is not None and not isinstance(r_, ast.Name):
                 ast.copy_location(r_, e_)
                 entries[kc_] = r_
-    if set(entries) != {(k, c) for k in range(3) for c in range(2)}:
+    if sem is True:
+        entries = {}
+    elif set(entries) != {(k, c) for k in range(3) for c in range(2)}:
         raise AnalysisError("_merge_aabb: the six entries of the merged box are not derivable (neither a literal 3x2 array nor element stores)")
 
     class _Row:
@@ -857,7 +872,7 @@ def r_links(idx, rep):
             self.elts = [entries[(k, 0)], entries[(k, 1)]]
 
     class _Arr:
-        elts = [_Row(0), _Row(1), _Row(2)]
+        elts = [_Row(0), _Row(1), _Row(2)] if sem is not True else []
     arr = _Arr
     for k, row in enumerate(arr.elts):
         for c, fn in ((0, "min"), (1, "max")):
@@ -1310,6 +1325,8 @@ def _num_eval(e, env):
     if isinstance(e, ast.Call):
         cn = (call_name(e) or "")
         short = cn.split(".")[-1]
+        if isinstance(e.func, ast.Attribute) and e.func.attr == "copy" and not e.args and not e.keywords:
+            return _num_eval(e.func.value, env)
         args = [_num_eval(a, env) for a in e.args]
         if short in ("array", "asarray", "asanyarray", "ascontiguousarray", "copy", "float", "atleast_2d") and len(args) == 1:
             return args[0]
@@ -1419,6 +1436,64 @@ def _box_grid():
                 A[rest[0]], B[rest[0]] = list(o1[0]), list(o1[1])
                 A[rest[1]], B[rest[1]] = list(o2[0]), list(o2[1])
                 yield A, B
+
+
+def _merge_semantic(m, mp):
+    """{(row, col): witness or None} from evaluating _merge_aabb on the box grid; None when the body is outside the evaluator's fragment"""
+    body = strip_docstring(m.node.body)
+
+    class _Ret(Exception):
+        def __init__(self, v):
+            self.v = v
+
+    def run(stmts, env):
+        for st in stmts:
+            if isinstance(st, ast.Assign):
+                for t_, v_ in assign_pairs(st):
+                    if isinstance(t_, ast.Name):
+                        env[t_.id] = _num_eval(v_, env)
+                    elif isinstance(t_, ast.Subscript) and isinstance(t_.value, ast.Name) and isinstance(env.get(t_.value.id), list):
+                        ix = [_num_eval(x_, env) for x_ in index_elts(t_)]
+                        tgt = env[t_.value.id]
+                        for i_ in ix[:-1]:
+                            tgt = tgt[i_]
+                        tgt[ix[-1]] = _num_eval(v_, env)
+                    else:
+                        raise _NotModelled("store")
+            elif isinstance(st, ast.If):
+                t = _num_eval(st.test, env)
+                if isinstance(t, list):
+                    raise _NotModelled("truth value of an array")
+                run(st.body if t else st.orelse, env)
+            elif isinstance(st, ast.For) and isinstance(st.iter, ast.Call) and call_name(st.iter) == "range" and isinstance(st.target, ast.Name):
+                for v in range(*[_num_eval(a_, env) for a_ in st.iter.args]):
+                    env[st.target.id] = v
+                    run(st.body, env)
+            elif isinstance(st, ast.Return):
+                raise _Ret(_num_eval(st.value, env))
+            elif isinstance(st, (ast.Pass, ast.Assert)):
+                continue
+            else:
+                raise _NotModelled("statement %s" % type(st).__name__)
+    out = {(k, c): None for k in range(3) for c in range(2)}
+    try:
+        for A, B in _box_grid():
+            env = {mp[0]: [list(r) for r in A], mp[1]: [list(r) for r in B], "True": True, "False": False}
+            try:
+                run(body, env)
+                got = None
+            except _Ret as r:
+                got = r.v
+            want = [[min(A[k][0], B[k][0]), max(A[k][1], B[k][1])] for k in range(3)]
+            if not (isinstance(got, list) and len(got) == 3 and all(isinstance(r_, list) and len(r_) == 2 for r_ in got)):
+                return None
+            for k in range(3):
+                for c in range(2):
+                    if got[k][c] != want[k][c] and out[(k, c)] is None:
+                        out[(k, c)] = (A, B, got, want)
+    except (_NotModelled, KeyError, IndexError, TypeError):
+        return None
+    return out
 
 
 def r_wrapper_prefilter(idx, rep, rule="R-TRAVERSE"):
